@@ -171,11 +171,11 @@ func init() {
 	})
 	reg(&PropSpec{
 		ID: "C01", Level: "other",
-		Explanation: seqLevelText + ". C01: for 5 corpus shapes (padding holes, mixed alignment, strings/slices/pointers/interfaces/arrays/zero-size fields, value embedding to depth 3 at non-zero offsets, tags, unexported names, duplicate names/types across depths) every focusable field gets a Lens and a Reflector derived by name and (where unique) by type, plus ForProduct2..9/ForSpectrum2..9 by type and by name on a nine-type struct; the struct content (between guard words) and the put values are fully symbolic; Get/Put/Gett/Putt are compared leaf by leaf (guards included) with ordinary Go selectors: GetPut, PutGet, PutPut, returned pointer identity. The unsafe pointer arithmetic is interpreted by a byte-offset memory model that flags any access not exactly on one field of the focus type.",
+		Explanation: seqLevelText + ". C01: for 6 corpus shapes (padding holes, mixed alignment, strings/slices/pointers/interfaces/arrays/zero-size fields, value embedding to depth 3 at non-zero offsets, tags, unexported names, duplicate names/types across depths, the same Go field name and type in two value-embedded structs told apart by tags) every focusable field gets a Lens and a Reflector derived by name and (where unique) by type, plus ForProduct2..9/ForSpectrum2..9 by type and by name on a nine-type struct; the struct content (between guard words) and the put values are fully symbolic; Get/Put/Gett/Putt are compared leaf by leaf (guards included) with ordinary Go selectors: GetPut, PutGet, PutPut, returned pointer identity. The unsafe pointer arithmetic is interpreted by a byte-offset memory model that flags any access not exactly on one field of the focus type.",
 		Assumptions: append([]string{"reflect reports the compiler's layout and type identity (model: go/types + types.SizesFor(gc, amd64)); replays run against the real reflect and the real unsafe arithmetic", "struct shapes outside the corpus and other GOARCH layouts are outside the claim (a layout-symbolic mode is described in DESIGN.md as thorough-tier work)"}, commonAssumptions...),
 		Jobs: func(tier string) []JobSpec {
 			var js []JobSpec
-			for _, t := range []string{"VFlat", "VDeep", "VTag", "VDup", "VZero"} {
+			for _, t := range []string{"VFlat", "VDeep", "VTag", "VDup", "VTwin", "VZero"} {
 				js = append(js, JobSpec{Group: "optics", Harness: "VLens" + t, Mode: "seq"})
 			}
 			js = append(js, JobSpec{Group: "optics", Harness: "VSymLens", Mode: "seq"})
